@@ -14,7 +14,12 @@ def enc(v) -> int:
         return 2 * int(m.group(1)) + len(m.group(2)) // 6
     m = re.fullmatch(r"u_(\d+)", name)
     if m:
-        return 2000 + 2 * int(m.group(1))
+        # y0 keeps, among latents with the same children, the one whose NAME sorts first: "u_11" < "u_4". The code of u_k is its rank in
+        # string order (k < 100), so that the model's numeric comparison is y0's comparison of names.
+        k = int(m.group(1))
+        if k >= 100:
+            raise ValueError(name)
+        return 2000 + 2 * (k * 11 if k < 10 else (k // 10) * 11 + 1 + k % 10)
     raise ValueError(name)
 
 
